@@ -856,7 +856,7 @@ theorem put_win (h : PutPre d p v ts pn m size ns ts') {k : String} {oldC : Ts} 
     (hlt : (d.timeOf oldC).cmp ts = .lt) :
     d.putInObject p k v ts =
       .ok (((d.addAll ns).set { pn with kind := .obj (alSet k ts m) (if d.isTomb oldC then size + 1 else size) }).funeral
-        oldC ts, some oldC) := by
+        oldC ts, if d.isTomb oldC then none else some oldC) := by
   unfold Doc.putInObject
   simp only [h.findObj, h.hc, hk, timeOf_of_find (h.old_addAll hk), isTomb_of_find (h.old_addAll hk), hlt,
     beq_self_eq_true, if_true]
